@@ -75,7 +75,12 @@ def gen_case(rng: random.Random, tier: str):
         warnings.simplefilter("ignore")
         ops = seqgen.gen_ops(rng, case, n_ops, 0.05, 0.02, focus=focus)
     ops = [o for o in ops if not o["op"].startswith("q_") and o["op"] != "estimate"]
-    if dev["slm"] and rng.random() < 0.85:
+    if xy and dev["slm"] and rng.random() < 0.5:
+        pre = straddle_prelude(rng, dev, reg)
+        if pre:
+            case["straddle"] = True
+            ops = pre + ops
+    elif dev["slm"] and rng.random() < 0.85:
         k = rng.randint(1, n)
         qs = rng.sample(reg["ids"], k)
         pos = rng.choice([0, 1, 1, 2, len(ops)]) if rng.random() < 0.7 else rng.randint(0, len(ops))
@@ -86,6 +91,40 @@ def gen_case(rng: random.Random, tier: str):
     case["ext"] = rng.choice([0, 1, 1, 5, 17, 100])
     case["bad"] = rng.choice([0, 0, 1, 10, 50, 400])
     return case
+
+
+def straddle_prelude(rng, dev, reg):
+    """XY mode: a pulse on a second microwave channel that starts while the SLM
+    mask is on (before the end of the first pulse of the first global channel)
+    and ends after it - the only way a slot can straddle the mask end."""
+    mw_g = [c for c in dev["channels"] if c["kind"] == "Microwave" and c["addressing"] == "Global"]
+    mw_l = [c for c in dev["channels"] if c["kind"] == "Microwave" and c["addressing"] == "Local"]
+    if not mw_g or not (mw_l or dev.get("reusable")):
+        return None
+    first = mw_g[0]
+    second = rng.choice(mw_l) if (mw_l and (not dev.get("reusable") or rng.random() < 0.5)) else first
+    ids = reg["ids"]
+    masked = rng.sample(ids, rng.randint(1, len(ids)))
+    d0 = rng.choice([48, 100, 160])
+    gap = rng.choice([16, 32, 44])  # valid for clock 1/4 and min_duration 1/16, < d0
+    d1 = d0 + rng.choice([16, 64, 200])
+    ops = [dict(op="declare", name="a", channel_id=first["id"], initial_target=None)]
+    if second["addressing"] == "Local":
+        k = second.get("max_targets") or len(ids)
+        tg = [rng.choice(masked)] + [q for q in rng.sample(ids, len(ids)) if q not in masked]
+        ops.append(dict(op="declare", name="b", channel_id=second["id"], initial_target=tg[: max(1, min(k, len(tg)))]))
+    else:
+        ops.append(dict(op="declare", name="b", channel_id=second["id"], initial_target=None))
+    slm = dict(op="config_slm", qubits=masked, dmm_id="dmm_0")
+    body = [
+        dict(op="add", pulse=dict(amp=seqgen.gen_wf(rng, d0, True), det=seqgen.gen_wf(rng, d0, False),
+                                  phase=rng.choice(seqgen.PHASES), post=0.0), channel="a", protocol=0),
+        dict(op="delay", duration=gap, channel="b", at_rest=False),
+        dict(op="add", pulse=dict(amp=seqgen.gen_wf(rng, d1, True), det=seqgen.gen_wf(rng, d1, False),
+                                  phase=rng.choice(seqgen.PHASES), post=0.0), channel="b", protocol=1),
+    ]
+    body.insert(rng.choice([0, 0, 1, 3]), slm)
+    return ops + body
 
 
 def run_case(case):
@@ -144,6 +183,7 @@ def run_case(case):
             local_multi=any((not c["glob"]) and any(len(s["tg"]) > 1 for s in c["slots"]) for c in x["chans"]),
             dd_user=any(v.signature.startswith("phase:zero") for v in viols),
             crash=bool(crashes),
+            straddle=straddles_mask(x, raw),
             nchan=len(x["chans"]),
         ),
     )
@@ -226,6 +266,18 @@ def cases_file(items) -> str:
         " Some (a, b) => sv_diff_path a b | None => [] end) bad."
     )
     return "\n".join(out) + "\n"
+
+
+def straddles_mask(x, raw):
+    """a pulse of an XY channel that names a masked atom starts before the mask
+    end and ends after it"""
+    mend = int(raw["s"]._slm_mask.end)
+    if not x["mask"] or not mend or not raw["s"]._slm_mask.targets:
+        return False
+    return any(
+        s["k"] == "pulse" and s["ti"] < mend < s["tf"] and set(s["tg"]) & set(x["mask"])
+        for c in x["chans"] if c["basis"] == 2 for s in c["slots"]
+    )
 
 
 class C06(PropCheck):
